@@ -28,7 +28,20 @@ Inductive dmode := DNone | DFar | DNear.
 Inductive obs := OHung | OBad | ORet (r : result) (started ready sendhook pmid : bool).
 
 Inductive case :=
-  Case (po so : outcome) (standby : bool) (tm : tmode) (dl : dmode) (g : gates) (o : obs).
+  (** one call under an enforced schedule *)
+| Case (po so : outcome) (standby : bool) (tm : tmode) (dl : dmode) (g : gates) (o : obs)
+  (** the configuration path: the plugin built as the loader builds it (args
+      map decoded by utils.WeakDecode, then fallback.Init) with [threshold]
+      unset ([None]) or set to [cfg] ms and [always_standby: sb]; observed:
+      the duration (ns) doFallback arms its threshold timer with and the
+      standby flag it uses ([None]: the constructor failed) *)
+| CConf (cfg : option Z) (sb : bool) (o : option (Z * bool))
+  (** end to end, coarse: threshold [cfg] ms configured, the primary produces
+      nothing before the call returns, the secondary answers at once;
+      observed: whether the secondary was started (no standby) / released
+      (standby) within [bound] ms of the call (best of three attempts), and
+      the result *)
+| CTiming (cfg : Z) (sb : bool) (bound : Z) (within : bool) (r : result).
 
 Definition cond_n (c : cond) : N :=
   match c with CTrue => 0 | CDelay => 1 | CNever => 2 | CSstarted => 3 | CSready => 4
@@ -64,12 +77,25 @@ Definition agree (c : case) : bool :=
   match c with
   | Case po so sb tm dl g (ORet r sta rd sh pm) =>
     existsb (matches sb r sta rd sh pm) (reach_states (case_gates dl g) (case_params po so sb tm dl g))
-  | _ => false
+  | Case _ _ _ _ _ _ _ => false
+  | CConf cfg sb (Some (eff, esb)) =>
+    (eff =? effective_threshold (match cfg with Some c => c | None => 0 end))%Z && Bool.eqb esb sb
+  | CConf _ _ None => false
+  | CTiming cfg sb bound within r =>
+    (* a timer fires no earlier than its duration, and (coarsely) not much later *)
+    Bool.eqb within (effective_threshold cfg <? bound * 1000000)%Z && result_eqb r (RAns WS)
   end.
 
 (** The property's own oracle on the observation, written from the property
     text and the meaning of the schedule, without the transition system. *)
 Definition ans (o : outcome) : bool := match o with OAns => true | _ => false end.
+
+(** The documented meaning of the setting: "Threshold in milliseconds. Default is 500." *)
+Definition configured_ms (cfg : option Z) : Z :=
+  match cfg with
+  | Some c => if (0 <? c)%Z then c else 500%Z
+  | None => 500%Z
+  end.
 
 Definition spec (c : case) : bool :=
   match c with
@@ -94,13 +120,23 @@ Definition spec (c : case) : bool :=
     && (if quiet && negb sb && sta then negb (ans po) && negb p_after_ret else true)
     (* with always_standby a finished secondary waits for the primary's signal *)
     && (if quiet && sb && ans so && sh then negb p_after_ret && (if ans po then pm else true) else true)
-  | _ => false
+  | Case _ _ _ _ _ _ _ => false
+  (* "the threshold" is the configured one (documented: milliseconds, default 500) *)
+  | CConf cfg sb (Some (eff, esb)) =>
+    (eff =? configured_ms cfg * 1000000)%Z && Bool.eqb esb sb
+  | CConf _ _ None => false
+  (* a primary slower than the configured threshold: the secondary is started / released when it passes, and used *)
+  | CTiming cfg sb bound within r =>
+    Bool.eqb within (configured_ms (Some cfg) <? bound)%Z && result_eqb r (RAns WS)
   end.
 
-(** Non-trivial: always_standby with both answering, a short threshold, or
-    the caller's context ending. *)
+(** Non-trivial: always_standby with both answering, a short threshold, the
+    caller's context ending, or a configured threshold value. *)
 Definition nontrivial (c : case) : bool :=
   match c with
   | Case po so sb tm dl g _ =>
     (sb && ans po && ans so) || fires tm || is_near dl || negb (cond_eqb (g_ctx g) CNever)
+  | CConf (Some c) _ _ => (0 <? c)%Z   (* a configured value *)
+  | CConf None _ _ => false
+  | CTiming _ _ _ _ _ => true
   end.
